@@ -263,6 +263,39 @@ def relations(ctx, quick):
             ctx.hist("rel:container==each")
             if res:
                 fails.append(res)
+
+    # --- R1b options written on a class-template instantiation == the same options on every method of the class
+    TLIB = {"library": "optlib", "cxx_header": "optlib.hpp", "options": {"wrap_python": False, "wrap_lua": False},
+            "declarations": [
+                {"decl": "template<typename T> class Box", "cxx_template": [{"instantiation": "<int>"}],
+                 "declarations": [{"decl": "Box()"}, {"decl": "void put(T v)"}, {"decl": "T get() const"},
+                                  {"decl": "const std::string &name() const"}, {"decl": "void fill(T *a +rank(1), int n +implied(size(a)))"}]},
+                {"decl": "void other(int a)"}]}
+    topts = [(k, v) for k, v in FUNC_OPTIONS] + [("debug", True)]
+
+    def r1b(kv):
+        k, v = kv
+        A = copy.deepcopy(TLIB)
+        A["declarations"][0]["cxx_template"][0]["options"] = {k: v}
+        B = copy.deepcopy(TLIB)
+        for ch in B["declarations"][0]["declarations"]:
+            put(ch, "options", k, v)
+        ra = run_lib(ctx, A, "r1b_%s_A" % k)
+        rb = run_lib(ctx, B, "r1b_%s_B" % k)
+        if ra[0] != 0 or rb[0] != 0:
+            return {"relation": "instantiation==each-method", "key": k, "value": v, "what": "run failed",
+                    "output": (ra[1] if ra[0] else rb[1])[-600:], "yaml_A": open(ra[3]).read(), "yaml_B": open(rb[3]).read()}
+        bad = diff_files(ra[2], rb[2])
+        if bad:
+            return {"relation": "instantiation==each-method", "key": k, "value": v, "what": "outputs differ", "files": bad,
+                    "yaml_A": open(ra[3]).read(), "yaml_B": open(rb[3]).read()}
+        return None
+    with ThreadPoolExecutor(vlib.NCPU) as ex:
+        for kv, res in zip(topts, ex.map(r1b, topts)):
+            ctx.count(1, ("r1b", str(kv)))
+            ctx.hist("rel:instantiation==each-method")
+            if res:
+                fails.append(res)
     ctx.sample({"relation": "container==each-child", "container_path": todo[0][0], "setting": todo[0][1]})
 
     # --- R1b sibling frame (through the json dump of per-node options/fmtdict)
